@@ -733,4 +733,40 @@ def originPackets (outs : List Out) : List Packet :=
     | .send a l p => some ⟨a.lan, a.mac, l, p⟩
     | _ => none
 
+/-! ## stateful global simulator (caches, parked packets and discovery evolve)
+
+  `vlan.Network.process_pdu` hands a frame to every hearing node in turn; each node's
+  `process_npdu` runs synchronously and the frames it sends are queued behind everything
+  already in flight (zero-delay tasks of the task manager are FIFO). -/
+
+abbrev World := List St
+
+/-- the APDUs a node hands upward, labelled with the adapter they arrived on -/
+def upsOf (a : Adapter) (o : List Out) : List Delivery :=
+  o.filterMap fun
+    | .up u => some ⟨a.lan, a.mac, u⟩
+    | _ => none
+
+/-- one node hears (or does not hear) a frame: new state, frames sent, APDUs handed upward -/
+def stepNode (s : St) (f : Packet) : St × List Packet × List Delivery :=
+  (s.node.adapters.filter (hears f)).foldl
+    (fun (acc : St × List Packet × List Delivery) a =>
+      let r := recv acc.1 a f.src f.dst f.npci
+      (r.1, acc.2.1 ++ originPackets r.2, acc.2.2 ++ upsOf a r.2))
+    (s, [], [])
+
+/-- one frame is processed by the whole internetwork -/
+def stepWorld (w : World) (f : Packet) : World × List Packet × List Delivery :=
+  (w.map (fun s => (stepNode s f).1),
+   w.flatMap (fun s => (stepNode s f).2.1),
+   w.flatMap (fun s => (stepNode s f).2.2))
+
+/-- `n` frames are processed in FIFO order -/
+def runWorld : Nat → World → List Packet → List Delivery → World × List Packet × List Delivery
+  | 0, w, q, d => (w, q, d)
+  | _ + 1, w, [], d => (w, [], d)
+  | n + 1, w, f :: q, d =>
+    let r := stepWorld w f
+    runWorld n r.1 (q ++ r.2.1) (d ++ r.2.2)
+
 end BacVerif.Route
